@@ -289,6 +289,8 @@ def run(chk):
         any(isinstance(x, ast.Continue) for x in ast.walk(build_loop))
     chk.ob('R18.6', 'the cases skipped when building work are exactly those reloaded from disk (same container, not reassigned in between)', ok,
            f'stores at {stores}', m.where(build_loop) if build_loop is not None else m.rel(), method='AST def-use')
+    case_dirs(chk, m, f, worker, skip_name)
+    chk.floor('R18.8', 3)
     chk.floor('R18.1', 2); chk.floor('R18.2', 2); chk.floor('R18.3', 2); chk.floor('R18.4', 3); chk.floor('R18.5', 2); chk.floor('R18.6', 1)
 
 
@@ -435,3 +437,74 @@ def journal(chk, m, f):
     expect_idx = {fields.index('start') - 1: 'float', fields.index('end') - 1: 'float', fields.index('n') - 1: 'int', fields.index('must_include') - 1: '['}
     okc = all(i in conv and conv[i].startswith(p) for i, p in expect_idx.items())
     chk.ob('R18.4', 'reader converts start/end to float, n to int and must_include to a list at the positions the writer put them', okc, f'conversions {conv}', m.where(writer), method='index table agreement')
+
+
+# ---------------------------------------------------------------------------------------------- R18.8 case directory names
+def fstring_shape(js):
+    """JoinedStr -> (literal parts, hole expressions)"""
+    lits = ['']; holes = []
+    for v in js.values:
+        if isinstance(v, ast.Constant):
+            lits[-1] += str(v.value)
+        else:
+            holes.append(v.value); lits.append('')
+    return lits, holes
+
+
+def case_dirs(chk, m, f, worker, skip_name):
+    """The per-case directory is the unit of the on-disk protocol: the worker creates it from (grid index, case number); on a restart the skip scan recovers the
+    case number from its name, and the reload of a skipped case re-creates the name from (stored grid index, case number).  The three sites must agree."""
+    # writer: in the worker, the f-string with two holes that mention the worker's parameters
+    wparams = [a.arg for a in worker.args.args]
+    wjs = [n for n in ast.walk(worker) if isinstance(n, ast.JoinedStr) and len(fstring_shape(n)[1]) == 2
+           and all(isinstance(h, ast.Name) and h.id in wparams for h in fstring_shape(n)[1]) and any(isinstance(p, ast.Call) and 'join' in ast.unparse(p.func) and any(x is n for x in ast.walk(p)) for p in ast.walk(worker))]
+    if len(wjs) != 1:
+        raise AnalysisError(f'{m.where(worker)}: case-directory name (f-string of two worker parameters inside os.path.join) not identified ({len(wjs)} candidates)')
+    wl, wh = fstring_shape(wjs[0])
+    idx_param, num_param = wh[0].id, wh[1].id
+    # reloader: an f-string in the driver (outside the worker) with the same number of holes whose second hole is the loop variable over the skip list
+    loops = [l for l in ast.walk(f) if isinstance(l, ast.For) and isinstance(l.iter, ast.Name) and l.iter.id == skip_name and isinstance(l.target, ast.Name)]
+    rel = []
+    for l in loops:
+        for n in ast.walk(l):
+            if isinstance(n, ast.JoinedStr) and len(fstring_shape(n)[1]) == 2:
+                rel.append((l, n))
+    if not rel:
+        raise AnalysisError(f'{m.where(f)}: reload of skipped cases (f-string directory name inside the loop over {skip_name}) not found')
+    for l, n in rel:
+        rl, rh = fstring_shape(n)
+        ok = rl == wl and isinstance(rh[1], ast.Name) and rh[1].id == l.target.id
+        chk.ob('R18.8', f'the directory a skipped case is reloaded from has the name the worker gave it ({"{}".join(wl)!r} with (grid index, case number))', ok,
+               f'worker writes {"{}".join(wl)!r}, reload reads {"{}".join(rl)!r} with holes ({ast.unparse(rh[0])}, {ast.unparse(rh[1])})', m.where(n), key='R18.8|reload-name', method='f-string template agreement')
+        # the grid index used in the name: stored per skipped case with the same constructor as the one handed to the worker
+        store_exprs = []
+        if isinstance(rh[0], ast.Subscript) and isinstance(rh[0].value, ast.Name):
+            dname = rh[0].value.id
+            for a in ast.walk(f):
+                if isinstance(a, ast.Assign) and isinstance(a.targets[0], ast.Subscript) and isinstance(a.targets[0].value, ast.Name) and a.targets[0].value.id == dname:
+                    store_exprs.append(a)
+        # what the worker receives as its index parameter: element of the case tuple at the parameter's position
+        pos = wparams.index(idx_param)
+        case_elem = None
+        for a in ast.walk(f):
+            if isinstance(a, ast.Assign) and isinstance(a.value, ast.Tuple) and len(a.value.elts) > pos and any(isinstance(e_, ast.Starred) for e_ in a.value.elts):
+                case_elem = a.value.elts[pos]
+        ok2 = bool(store_exprs) and case_elem is not None and all(ast.dump(a.value) == ast.dump(case_elem) for a in store_exprs)
+        chk.ob('R18.8', 'the grid index stored for a skipped case is built by the same expression as the one handed to the worker (same text in the directory name)', ok2,
+               f'stored: {[ast.unparse(a.value) for a in store_exprs]}, handed to the worker: {ast.unparse(case_elem) if case_elem is not None else None}', m.where(store_exprs[0]) if store_exprs else m.where(n),
+               key='R18.8|index-constructor', method='AST def-use')
+    # scanner: int(<name>.split(SEP)[-1]) with SEP the literal between the two holes of the writer, the number being the last hole and nothing after it
+    sep = wl[1]
+    scans = [n for n in ast.walk(f) if isinstance(n, ast.Call) and isinstance(n.func, ast.Name) and n.func.id == 'int' and n.args and isinstance(n.args[0], ast.Subscript)
+             and isinstance(n.args[0].value, ast.Call) and isinstance(n.args[0].value.func, ast.Attribute) and n.args[0].value.func.attr == 'split' and enclosing_function(f, n) is f
+             and not any(isinstance(p, ast.With) and any(x is n for x in ast.walk(p)) for p in ast.walk(f))]
+    if not scans:
+        raise AnalysisError(f'{m.where(f)}: skip scan (int(<dir>.split(sep)[-1])) not found')
+    for n in scans:
+        sp = n.args[0].value
+        sepv = sp.args[0].value if sp.args and isinstance(sp.args[0], ast.Constant) else None
+        idx = n.args[0].slice
+        last = isinstance(idx, ast.UnaryOp) and isinstance(idx.op, ast.USub) and isinstance(idx.operand, ast.Constant) and idx.operand.value == 1
+        ok = sepv == sep and last and wl[2] == ''
+        chk.ob('R18.8', f'the restart scan recovers the case number from the directory name the worker wrote (separator {sep!r}, number last)', ok,
+               f'scan splits on {sepv!r} and takes element {ast.unparse(idx)}; the worker writes {"{}".join(wl)!r}', m.where(n), key='R18.8|scan-name', method='writer/reader template agreement')
